@@ -98,14 +98,15 @@ type liveCnt struct {
 
 // regModel is the reference model of C04.
 type regModel struct {
-	live map[string]*liveCnt // hex(cid)
-	tomb map[string]bool
-	seen map[string]*cntBlob // every id ever used
-	doms map[string]bool     // every alias domain ever used
+	live    map[string]*liveCnt // hex(cid)
+	tomb    map[string]bool
+	seen    map[string]*cntBlob // every id ever used
+	doms    map[string]bool     // every alias domain ever used
+	expired map[string]bool     // alias domains whose registration has run out
 }
 
 func newRegModel() *regModel {
-	return &regModel{live: map[string]*liveCnt{}, tomb: map[string]bool{}, seen: map[string]*cntBlob{}, doms: map[string]bool{}}
+	return &regModel{live: map[string]*liveCnt{}, tomb: map[string]bool{}, seen: map[string]*cntBlob{}, doms: map[string]bool{}, expired: map[string]bool{}}
 }
 
 func structString(fields ...[]byte) string {
@@ -203,6 +204,14 @@ func (w *cntWorld) compareRegistry(m *regModel, what string) {
 			}
 		}
 		o := w.c.Call(nil, w.nns, "getRecords", d, int64(16))
+		if m.expired[d] {
+			if o.Halt {
+				if got, ok := renderList(o); ok && len(got) != 0 {
+					fail("C04: NNS still answers %s for the expired alias domain %s (%s)", short(got), d, what)
+				}
+			}
+			continue
+		}
 		if !o.Halt && len(want) == 0 {
 			continue // domain never registered (or expired): no records
 		}
